@@ -292,3 +292,84 @@ func (m *Map) Range(f func(key, value any) bool) {
 		}
 	}
 }
+
+// Chan ---------------------------------------------------------------------------------------
+//
+// Chan models a Go channel for code whose channel operations were rewritten by vtool
+// (make(chan T, n) -> MakeChan[T](n), ch <- v -> ch.Send(v), <-ch -> ch.Recv(),
+// v, ok := <-ch -> ch.Recv2(), close(ch) -> ch.Close()). select is not supported.
+// An unbuffered send deposits the value and then waits until a receiver has taken it.
+
+type Chan[T any] struct {
+	o      vsched.Obj
+	buf    []T
+	cap    int
+	closed bool
+	taken  uint64 // number of values received so far
+	sent   uint64 // number of values deposited so far
+}
+
+func MakeChan[T any](n ...int) *Chan[T] {
+	c := &Chan[T]{}
+	if len(n) > 0 {
+		c.cap = n[0]
+	}
+	c.o.Desc = "chan"
+	return c
+}
+
+func (c *Chan[T]) Send(v T) {
+	if c == nil {
+		vsched.PointAt(vsched.KCondWait, nil, func() bool { return false }) // a nil channel blocks forever
+		return
+	}
+	room := c.cap
+	if room == 0 {
+		room = 1 // the rendezvous slot
+	}
+	vsched.PointAt(vsched.KStore, &c.o, func() bool { return c.closed || len(c.buf) < room })
+	if c.closed {
+		panic("send on closed channel")
+	}
+	c.buf = append(c.buf, v)
+	c.sent++
+	if c.cap == 0 {
+		my := c.sent
+		vsched.PointAt(vsched.KCondWait, &c.o, func() bool { return c.taken >= my || c.closed })
+	}
+}
+
+func (c *Chan[T]) Recv2() (T, bool) {
+	var zero T
+	if c == nil {
+		vsched.PointAt(vsched.KCondWait, nil, func() bool { return false })
+		return zero, false
+	}
+	vsched.PointAt(vsched.KCondWait, &c.o, func() bool { return len(c.buf) > 0 || c.closed })
+	if len(c.buf) == 0 {
+		return zero, false
+	}
+	v := c.buf[0]
+	c.buf = c.buf[1:]
+	c.taken++
+	return v, true
+}
+
+func (c *Chan[T]) Recv() T {
+	v, _ := c.Recv2()
+	return v
+}
+
+func (c *Chan[T]) Close() {
+	if c == nil {
+		panic("close of nil channel")
+	}
+	vsched.PointAt(vsched.KBroadcast, &c.o, nil)
+	if c.closed && vsched.Active() {
+		panic("close of closed channel")
+	}
+	c.closed = true
+}
+
+func (c *Chan[T]) Len() int { return len(c.buf) }
+func (c *Chan[T]) Cap() int { return c.cap }
